@@ -242,7 +242,7 @@ func ctxLeanPairs(rows [][2]string) string {
 
 func genCtxFields(r *Repo) (string, error) {
 	for _, f := range []string{"context.go", "fox.go", "txn.go"} {
-		if r.Files[f] == nil {
+		if r.File(f) == nil {
 			return "", fmt.Errorf("missing %s", f)
 		}
 	}
